@@ -40,8 +40,10 @@ type (
 		// execCtx holds various information to be read/written by assembly functions.
 		execCtx executionContext
 		// execCtxPtr holds the pointer to the executionContext which doesn't change after callEngine is created.
-		execCtxPtr        uintptr
-		numberOfResults   int
+		execCtxPtr      uintptr
+		numberOfResults int
+		// resultTypes are the result types of the function, used to normalize the 32-bit results.
+		resultTypes       []wasm.ValueType
 		stackIteratorImpl stackIterator
 	}
 
@@ -183,6 +185,29 @@ func (c *callEngine) addFrame(builder wasmdebug.ErrorBuilder, addr uintptr) (def
 	return
 }
 
+// clearUpper32Bits zeroes the upper halves of the uint64 slots which hold i32 and f32 values: the generated code
+// writes only their lower 4 bytes, while the slots are documented (api.EncodeI32 etc.) to hold zero-extended values.
+func clearUpper32Bits(stack []uint64, types []api.ValueType) {
+	i := 0
+	for _, t := range types {
+		switch t {
+		case api.ValueTypeI32, api.ValueTypeF32:
+			stack[i] &= 0xffffffff
+			i++
+		case wasm.ValueTypeV128:
+			i += 2
+		default:
+			i++
+		}
+	}
+}
+
+// hostFunctionParamTypes returns the parameter types of the index-th function of the host module.
+func hostFunctionParamTypes(opaqueBegin uintptr, index int) []api.ValueType {
+	m := hostModuleFromOpaque(opaqueBegin)
+	return m.TypeSection[m.FunctionSection[index]].Params
+}
+
 // CallWithStack implements api.Function.
 func (c *callEngine) CallWithStack(ctx context.Context, paramResultStack []uint64) (err error) {
 	if c.sizeOfParamResultSlice > len(paramResultStack) {
@@ -281,6 +306,7 @@ func (c *callEngine) callWithStack(ctx context.Context, paramResultStack []uint6
 	for {
 		switch ec := c.execCtx.exitCode; ec & wazevoapi.ExitCodeMask {
 		case wazevoapi.ExitCodeOK:
+			clearUpper32Bits(paramResultStack, c.resultTypes)
 			return nil
 		case wazevoapi.ExitCodeGrowStack:
 			oldsp := uintptr(unsafe.Pointer(c.execCtx.stackPointerBeforeGoCall))
@@ -324,11 +350,13 @@ func (c *callEngine) callWithStack(ctx context.Context, paramResultStack []uint6
 		case wazevoapi.ExitCodeCallGoFunction:
 			index := wazevoapi.GoFunctionIndexFromExitCode(ec)
 			f := hostModuleGoFuncFromOpaque[api.GoFunction](index, c.execCtx.goFunctionCallCalleeModuleContextOpaque)
+			s := goCallStackView(c.execCtx.stackPointerBeforeGoCall)
+			clearUpper32Bits(s, hostFunctionParamTypes(c.execCtx.goFunctionCallCalleeModuleContextOpaque, index))
 			func() {
 				if snapshotEnabled {
 					defer snapshotRecoverFn(c)
 				}
-				f.Call(ctx, goCallStackView(c.execCtx.stackPointerBeforeGoCall))
+				f.Call(ctx, s)
 			}()
 			// Back to the native code.
 			c.execCtx.exitCode = wazevoapi.ExitCodeOK
@@ -344,6 +372,7 @@ func (c *callEngine) callWithStack(ctx context.Context, paramResultStack []uint6
 			listener := listeners[index]
 			hostModule := hostModuleFromOpaque(c.execCtx.goFunctionCallCalleeModuleContextOpaque)
 			def := hostModule.FunctionDefinition(wasm.Index(index))
+			clearUpper32Bits(s, def.ParamTypes())
 			listener.Before(ctx, callerModule, def, s, c.stackIterator(true))
 			// Call into the Go function.
 			func() {
@@ -362,11 +391,13 @@ func (c *callEngine) callWithStack(ctx context.Context, paramResultStack []uint6
 			index := wazevoapi.GoFunctionIndexFromExitCode(ec)
 			f := hostModuleGoFuncFromOpaque[api.GoModuleFunction](index, c.execCtx.goFunctionCallCalleeModuleContextOpaque)
 			mod := c.callerModuleInstance()
+			s := goCallStackView(c.execCtx.stackPointerBeforeGoCall)
+			clearUpper32Bits(s, hostFunctionParamTypes(c.execCtx.goFunctionCallCalleeModuleContextOpaque, index))
 			func() {
 				if snapshotEnabled {
 					defer snapshotRecoverFn(c)
 				}
-				f.Call(ctx, mod, goCallStackView(c.execCtx.stackPointerBeforeGoCall))
+				f.Call(ctx, mod, s)
 			}()
 			// Back to the native code.
 			c.execCtx.exitCode = wazevoapi.ExitCodeOK
@@ -382,6 +413,7 @@ func (c *callEngine) callWithStack(ctx context.Context, paramResultStack []uint6
 			listener := listeners[index]
 			hostModule := hostModuleFromOpaque(c.execCtx.goFunctionCallCalleeModuleContextOpaque)
 			def := hostModule.FunctionDefinition(wasm.Index(index))
+			clearUpper32Bits(s, def.ParamTypes())
 			listener.Before(ctx, callerModule, def, s, c.stackIterator(true))
 			// Call into the Go function.
 			func() {
@@ -402,6 +434,7 @@ func (c *callEngine) callWithStack(ctx context.Context, paramResultStack []uint6
 			mod := c.callerModuleInstance()
 			listener := mod.Engine.(*moduleEngine).listeners[index]
 			def := mod.Source.FunctionDefinition(index + mod.Source.ImportFunctionCount)
+			clearUpper32Bits(stack[1:], def.ParamTypes())
 			listener.Before(ctx, mod, def, stack[1:], c.stackIterator(false))
 			c.execCtx.exitCode = wazevoapi.ExitCodeOK
 			afterGoFunctionCallEntrypoint(c.execCtx.goCallReturnAddress, c.execCtxPtr,
@@ -412,6 +445,7 @@ func (c *callEngine) callWithStack(ctx context.Context, paramResultStack []uint6
 			mod := c.callerModuleInstance()
 			listener := mod.Engine.(*moduleEngine).listeners[index]
 			def := mod.Source.FunctionDefinition(index + mod.Source.ImportFunctionCount)
+			clearUpper32Bits(stack[1:], def.ResultTypes())
 			listener.After(ctx, mod, def, stack[1:])
 			c.execCtx.exitCode = wazevoapi.ExitCodeOK
 			afterGoFunctionCallEntrypoint(c.execCtx.goCallReturnAddress, c.execCtxPtr,
